@@ -86,6 +86,14 @@ M = [
   "switch sub := req.GetSubject().GetRef().(type) {", "switch sub := req.Subject.Ref.(type) {"),
  ("root-channel-unbuffered", "C15", "internal/check/engine.go",
   "resultCh := make(chan checkgroup.Result, 1)\n\tgo e.checkIsAllowed", "resultCh := make(chan checkgroup.Result)\n\tgo e.checkIsAllowed"),
+ # handler-level: the request's cancellation no longer reaches the engine
+ ("rest-check-detached-context", "C15", "internal/check/handler.go",
+  "allowed, err := h.getCheck(r.Context(), r.URL.Query())\n\tif err != nil {\n\t\th.d.Writer().WriteError(w, r, err)\n\t\treturn\n\t}\n\n\tif allowed {",
+  "allowed, err := h.getCheck(context.WithoutCancel(r.Context()), r.URL.Query())\n\tif err != nil {\n\t\th.d.Writer().WriteError(w, r, err)\n\t\treturn\n\t}\n\n\tif allowed {"),
+ ("grpc-check-detached-context", "C15", "internal/check/handler.go",
+  "allowed, err := h.d.PermissionEngine().CheckIsMember(ctx, internalTuple[0], int(req.MaxDepth))", "allowed, err := h.d.PermissionEngine().CheckIsMember(context.WithoutCancel(ctx), internalTuple[0], int(req.MaxDepth))"),
+ ("batch-check-detached-context", "C15", "internal/check/engine.go",
+  "results[i] = e.CheckRelationTuple(ctx, internalTuple[0], maxDepth)", "results[i] = e.CheckRelationTuple(context.WithoutCancel(ctx), internalTuple[0], maxDepth)"),
 ]
 
 
